@@ -195,6 +195,26 @@ def doLegacyRed (l : Line) : Option String := do
   let r := { base with method := m, nin := nin, nout := nout }
   some s!"ufunc={uname} nin={r.nin} nout={r.nout} {showOutcome (dispatch r)}"
 
+/-- `plegacy name=<n> shape= dtype= outs=<absent|chars> np=…` -/
+def doPLegacy (l : Line) : Option String := do
+  let name ← l.get? "name"
+  let shape ← l.get? "shape" >>= parseShape
+  let dt ← l.get? "dtype" >>= parseDType
+  let outs ← l.get? "outs" >>= parseOuts
+  let np ← l.get? "np" >>= parseNp
+  let (uname, o) ← powerLegacyCall Gen.UfuncLegacy.legacyNames Gen.UfuncLegacy.legacyPowerRules
+    Gen.UfuncLegacy.npUfuncs name ⟨shape, dt⟩ outs np
+  some s!"ufunc={uname} {showOutcome o}"
+
+/-- `plegacyred name=sum np=<err:Cls|scalar>`: component reductions combined to a scalar. -/
+def doPLegacyRed (l : Line) : Option String := do
+  let name ← l.get? "name"
+  let np ← l.get? "np" >>= parseNp
+  let (_, comb) ← Gen.UfuncLegacy.legacyPowerReductions.find? (·.1 = name)
+  match np with
+  | .err c => some s!"comb={comb} err:{c}"
+  | .ok _ => some s!"comb={comb} ok scalar"
+
 def parseOrder : String → Option Order
   | "none" => some .any | "C" => some .C | "F" => some .F
   | _ => none
@@ -218,6 +238,8 @@ def handle (l : Line) : Option String :=
   | "legacy" => doLegacy l
   | "legacyred" => doLegacyRed l
   | "element" => doElement l
+  | "plegacy" => doPLegacy l
+  | "plegacyred" => doPLegacyRed l
   | _ => none
 
 def main : IO Unit := driverLoop handle
